@@ -1166,42 +1166,25 @@ Require Verif.Tie.Nuget.
 Require Verif.Tie.Pypi.
 Require Verif.Tie.Rpm.
 Require Verif.Tie.Semver.
-Definition C18_tie_alpine_Version_String := Verif.Tie.Alpine.tie_alpine_Version_String.
-Print Assumptions C18_tie_alpine_Version_String.
-Definition C18_tie_alpm_string := Verif.Tie.Alpm.tie_alpm_string.
-Print Assumptions C18_tie_alpm_string.
-Definition C18_tie_apache_string := Verif.Tie.Apache.tie_apache_string.
-Print Assumptions C18_tie_apache_string.
-Definition C18_tie_cargo_string := Verif.Tie.Cargo.tie_cargo_string.
-Print Assumptions C18_tie_cargo_string.
-Definition C18_tie_composer_string := Verif.Tie.Composer.tie_composer_string.
-Print Assumptions C18_tie_composer_string.
-Definition C18_tie_conan_Version_String := Verif.Tie.Conan.tie_conan_Version_String.
-Print Assumptions C18_tie_conan_Version_String.
-Definition C18_tie_cran_string := Verif.Tie.Cran.tie_cran_string.
-Print Assumptions C18_tie_cran_string.
-Definition C18_tie_debian_string := Verif.Tie.Debian.tie_debian_string.
-Print Assumptions C18_tie_debian_string.
-Definition C18_tie_gem_Version_String := Verif.Tie.Gem.tie_gem_Version_String.
-Print Assumptions C18_tie_gem_Version_String.
-Definition C18_tie_gentoo_string := Verif.Tie.Gentoo.tie_gentoo_string.
-Print Assumptions C18_tie_gentoo_string.
-Definition C18_tie_github_string := Verif.Tie.Github.tie_github_string.
-Print Assumptions C18_tie_github_string.
-Definition C18_tie_golang_Version_String := Verif.Tie.Golang.tie_golang_Version_String.
-Print Assumptions C18_tie_golang_Version_String.
-Definition C18_tie_hex_string := Verif.Tie.Hex.tie_hex_string.
-Print Assumptions C18_tie_hex_string.
-Definition C18_tie_mattermost_string := Verif.Tie.Mattermost.tie_mattermost_string.
-Print Assumptions C18_tie_mattermost_string.
-Definition C18_tie_npm_string := Verif.Tie.Npm.tie_npm_string.
-Print Assumptions C18_tie_npm_string.
-Definition C18_tie_nuget_string := Verif.Tie.Nuget.tie_nuget_string.
-Print Assumptions C18_tie_nuget_string.
-Definition C18_tie_pypi_Version_String := Verif.Tie.Pypi.tie_pypi_Version_String.
-Print Assumptions C18_tie_pypi_Version_String.
-Definition C18_tie_rpm_string := Verif.Tie.Rpm.tie_rpm_string.
-Print Assumptions C18_tie_rpm_string.
-Definition C18_tie_semver_string := Verif.Tie.Semver.tie_semver_string.
-Print Assumptions C18_tie_semver_string.
+Definition C18_tie_alpine_Version_String := @Verif.Tie.Alpine.tie_alpine_Version_String.
+Definition C18_tie_alpm_string := @Verif.Tie.Alpm.tie_alpm_string.
+Definition C18_tie_apache_string := @Verif.Tie.Apache.tie_apache_string.
+Definition C18_tie_cargo_string := @Verif.Tie.Cargo.tie_cargo_string.
+Definition C18_tie_composer_string := @Verif.Tie.Composer.tie_composer_string.
+Definition C18_tie_conan_Version_String := @Verif.Tie.Conan.tie_conan_Version_String.
+Definition C18_tie_cran_string := @Verif.Tie.Cran.tie_cran_string.
+Definition C18_tie_debian_string := @Verif.Tie.Debian.tie_debian_string.
+Definition C18_tie_gem_Version_String := @Verif.Tie.Gem.tie_gem_Version_String.
+Definition C18_tie_gentoo_string := @Verif.Tie.Gentoo.tie_gentoo_string.
+Definition C18_tie_github_string := @Verif.Tie.Github.tie_github_string.
+Definition C18_tie_golang_Version_String := @Verif.Tie.Golang.tie_golang_Version_String.
+Definition C18_tie_hex_string := @Verif.Tie.Hex.tie_hex_string.
+Definition C18_tie_mattermost_string := @Verif.Tie.Mattermost.tie_mattermost_string.
+Definition C18_tie_npm_string := @Verif.Tie.Npm.tie_npm_string.
+Definition C18_tie_nuget_string := @Verif.Tie.Nuget.tie_nuget_string.
+Definition C18_tie_pypi_Version_String := @Verif.Tie.Pypi.tie_pypi_Version_String.
+Definition C18_tie_rpm_string := @Verif.Tie.Rpm.tie_rpm_string.
+Definition C18_tie_semver_string := @Verif.Tie.Semver.tie_semver_string.
+Definition C18_ties_all := (C18_tie_alpine_Version_String, (C18_tie_alpm_string, (C18_tie_apache_string, (C18_tie_cargo_string, (C18_tie_composer_string, (C18_tie_conan_Version_String, (C18_tie_cran_string, (C18_tie_debian_string, (C18_tie_gem_Version_String, (C18_tie_gentoo_string, (C18_tie_github_string, (C18_tie_golang_Version_String, (C18_tie_hex_string, (C18_tie_mattermost_string, (C18_tie_npm_string, (C18_tie_nuget_string, (C18_tie_pypi_Version_String, (C18_tie_rpm_string, C18_tie_semver_string)))))))))))))))))).
+Print Assumptions C18_ties_all.
 (* ====== ties to the source: END ====== *)
